@@ -212,7 +212,9 @@ def hod_case(draw):
     return {'dims': dims, 'order': draw(st.sampled_from([2, 3, 4, 6])), 'normalize': normalize, 'seed': draw(gen.SEED),
             'h': draw(st.sampled_from([0.05, 0.1, 0.2, 0.4])), 'steps': draw(st.integers(1, 4)), 'previous': draw(st.booleans()),
             'terms': draw(st.integers(1, 3)), 'cplx': draw(st.booleans()) if normalize != 1 else False, 'x_rank': draw(st.integers(1, 2)),
-            'x_scale_exp': draw(st.sampled_from([0, 0, 0, -9, 7])), 'tight_max_rank': draw(st.sampled_from([False, False, True]))}
+            'x_scale_exp': draw(st.sampled_from([0, 0, 0, -9, 7])), 'tight_max_rank': draw(st.sampled_from([False, False, True])),
+            # the optional argument op_hod: the caller hands over the very operator the routine would build itself
+            'supply_op_hod': draw(st.sampled_from([False, False, True]))}
 
 
 def body_hod(c):
@@ -227,6 +229,9 @@ def body_hod(c):
         A = A / max(np.max(np.abs(np.diag(A))), 1e-12) * 0.5
     else:
         A = general_operator(rng, dims, c['cplx'], terms=c['terms'])
+    # (an identically vanishing operator -- the only local generator drawn sits on a size-1 site -- is outside the domain: hod rounds
+    # its operator with a relative threshold, which is undefined for the zero tensor, see DESIGN 2.3)
+    assume(float(np.linalg.norm(A)) > 0)
     op = TT(dense.op_cores(A, dims))
     assume(max(op.ranks) <= 3)
     mr = dense.max_ranks(dims)
@@ -247,6 +252,13 @@ def body_hod(c):
     if prev is not None:
         prev_dense = vec(prev)
         kw['previous_value'] = prev
+    if c.get('supply_op_hod'):
+        Mh = np.zeros((N, N), dtype=A.dtype)
+        Ak_ = A.copy()
+        for j in range(1, order // 2 + 1):
+            Mh = Mh + 2.0 / math.factorial(2 * j - 1) * h ** (2 * j - 1) * Ak_
+            Ak_ = Ak_ @ A @ A
+        kw['op_hod'] = TT(dense.op_cores(Mh, dims))
     sol = ode.hod(op, x0, h, c['steps'], **kw)
     require(isinstance(sol, list) and len(sol) == c['steps'] + 1, 'length', 'trajectory has %d states for %d steps' % (len(sol), c['steps']))
     for t, s in snaps:
@@ -282,6 +294,8 @@ def body_hod(c):
         if p == 1:
             require(abs(np.sum(got) - 1) <= 1e-9, 'unit_norm', '1-norm %.12f' % np.sum(got))
     lab = {'hod', 'order%d' % c['order'], 'normalize%d' % p, 'previous' if c['previous'] else 'self_start'}
+    if c.get('supply_op_hod'):
+        lab.add('op_hod_supplied')
     if c['cplx']:
         lab.add('complex')
     if d == 1:
